@@ -3,7 +3,7 @@
 # usage: tools/baseline_check.sh [extra pytest args]   (e.g. -n 8)
 OUT=${BASELINE_OUT:-/root/baseline_run}
 mkdir -p $OUT
-cd /repo && /venv/bin/python -m pytest -ra -q -p no:cacheprovider --timeout=900 --continue-on-collection-errors --junitxml=$OUT/junit.xml "$@" > $OUT/log.txt 2>&1
+cd ${BASELINE_REPO:-/repo} && /venv/bin/python -m pytest -ra -q -p no:cacheprovider --timeout=900 --continue-on-collection-errors --junitxml=$OUT/junit.xml "$@" > $OUT/log.txt 2>&1
 /venv/bin/python - <<PY
 import json, xml.etree.ElementTree as ET
 base=json.load(open('/root/.vp/BASELINE.json'))
